@@ -5,6 +5,7 @@ import operator
 from ..util import KIND, MODEL_NAMES, models
 
 PROPERTY = "C18"
+TECHNIQUE = "runtime monitoring: contract monitor over the rich-comparison operators vs ordinal(), incl. objects changed in place"
 LEVEL = "exploration"
 RULE = ("Contract monitor over the five rating classes: for pairs (a, b) of one class the results of < <= > >= must equal "
         "the same operator on a.ordinal() and b.ordinal(); ordinal(z) must equal mu - z*sigma (2 ulp) for z in "
